@@ -280,3 +280,76 @@ def u5_refusal(ctx) -> None:
         ctx.ok("U5", "an empty size is refused with the documented InvalidOperationError")
     else:
         ctx.violation("U5", f, "an empty size must be refused with InvalidOperationError", construct="CombinatorialSpecification.random_sample_object_of_size refusal")
+
+
+def u7_parameter_ranges(ctx) -> None:
+    """CartesianProduct._valid_compositions splits each parent parameter over the children.
+    The values offered to the first child are the intersection of its own interval with what
+    the remaining children can absorb: [max(own lower, total - rest's upper),
+    min(own upper, total - rest's lower)]; the recursion continues with total - value; the
+    last child takes the rest if it fits its interval."""
+    from ..core import pattern as PT
+    P = ctx.P
+    m = P.need_method("CartesianProduct", "_valid_compositions", own=True)
+    helpers = [n for n in ast.walk(m.node) if isinstance(n, ast.FunctionDef) and n is not m.node]
+    if len(helpers) != 1:
+        raise AnalysisError("U7: _valid_compositions no longer has one recursive helper")
+    h = helpers[0]
+    ctx.analysed(m)
+    ps = D.param_names(h)
+    mm = ps[0]
+    rest_lo = PT.find_all(h, f"_M_lo = {{_M_k: sum((_M_x[_M_k][0] for _M_x in {mm}[1:])) for _M_k in self.parent_parameters}}")
+    rest_hi = PT.find_all(h, f"_M_hi = {{_M_k: sum((_M_x[_M_k][1] for _M_x in {mm}[1:])) for _M_k in self.parent_parameters}}")
+    if not rest_lo or not rest_hi:
+        raise AnalysisError("U7: the sums of the remaining children's lower / upper bounds are not computed in the known way")
+    lo, hi = rest_lo[0][1]["_M_lo"], rest_hi[0][1]["_M_hi"]
+    own = [t.id for n in walk_local(h) for t, v in [PT.assign_value(n)] if isinstance(t, ast.Name) and v is not None and norm(v) == f"{mm}[0]"
+           and not any(isinstance(g, ast.If) for g in _ancestors(n, h))]
+    ranges = [c for c in ast.walk(h) if isinstance(c, ast.Call) and norm(c.func) == "range" and len(c.args) == 2]
+    if not ranges:
+        raise AnalysisError("U7: no candidate range in the helper of _valid_compositions")
+    kw = ps[-1] if h.args.kwarg else "parameters"
+    for r in ranges:
+        names = own + [f"{mm}[0]"]
+        good = False
+        for o in names:
+            for lower in (f"max({o}[_M_k][0], {kw}[_M_k] - {hi}[_M_k])", f"max({kw}[_M_k] - {hi}[_M_k], {o}[_M_k][0])"):
+                for upper in (f"min({o}[_M_k][1], {kw}[_M_k] - {lo}[_M_k]) + 1", f"min({kw}[_M_k] - {lo}[_M_k], {o}[_M_k][1]) + 1"):
+                    if PT.match(PT.compile_pattern(f"range({lower}, {upper})"), r) is not None:
+                        good = True
+        if good:
+            ctx.ok("U7", "values offered to a child = [max(own lower, total - rest's upper), min(own upper, total - rest's lower)]")
+        else:
+            ctx.violation("U7", r, f"`{norm(r)[:150]}` is not the intersection of the child's own interval with what the remaining children can absorb "
+                          f"(lower = max(own[k][0], {kw}[k] - {hi}[k]), upper = min(own[k][1], {kw}[k] - {lo}[k]) + 1): values outside a child's interval are offered, or "
+                          "feasible ones left out, and the weights no longer add up to the count")
+    rec = [c for c in ast.walk(h) if isinstance(c, ast.Call) and norm(c.func) == h.name]
+    okr = False
+    for c in rec:
+        if c.args and norm(c.args[0]) == f"{mm}[1:]" and c.keywords and c.keywords[0].arg is None:
+            up = c.keywords[0].value
+            ds = [d for d in D.definitions(h).get(norm(up), []) if d[1] is not None]
+            if ds and PT.match(PT.compile_pattern(f"{{_M_k: {kw}[_M_k] - _M_v[_M_k] for _M_k in self.parent_parameters}}"), ds[0][1]) is not None:
+                okr = True
+    if okr:
+        ctx.ok("U7", "the recursion continues with the remaining children and total - value")
+    else:
+        ctx.violation("U7", h, "the helper must recurse on the remaining children with each parameter reduced by the value just given out", construct="CartesianProduct._valid_compositions recursion")
+    base = PT.find_all(h, f"all(({mm}[0][_M_k][0] <= {kw}[_M_k] <= {mm}[0][_M_k][1] for _M_k in self.parent_parameters))") or \
+        [x for o in own for x in PT.find_all(h, f"all(({o}[_M_k][0] <= {kw}[_M_k] <= {o}[_M_k][1] for _M_k in self.parent_parameters))")]
+    if not base:
+        for n2 in walk_local(h):
+            t, v = PT.assign_value(n2)
+            if isinstance(t, ast.Name) and v is not None and norm(v) == f"{mm}[0]":
+                base = base or PT.find_all(h, f"all(({t.id}[_M_k][0] <= {kw}[_M_k] <= {t.id}[_M_k][1] for _M_k in self.parent_parameters))")
+    if base:
+        ctx.ok("U7", "the last child takes the rest only if it lies in its own interval")
+    else:
+        ctx.violation("U7", h, "for the last child the helper must test lower <= rest <= upper for every parent parameter", construct="CartesianProduct._valid_compositions base case")
+
+
+def _ancestors(n, stop):
+    cur = getattr(n, "_parent", None)
+    while cur is not None and cur is not stop:
+        yield cur
+        cur = getattr(cur, "_parent", None)
